@@ -256,7 +256,14 @@ def verify_contract(reg, c, timeout_ms=10000, feas_timeout_ms=2000, canary=True,
             check_frame(eng, c, old_heap, penv, line)
             if canary and not seen_canary[0]:
                 # vacuity canary: `False` must be refutable on a normally-returning path
-                r = p.check(None, timeout=timeout_ms)
+                # (the return guard above may already have found a model; otherwise one more attempt with
+                # a small budget per path - a satisfiability answer under quantifiers is rare and a
+                # full query budget per path was most of the exploration time of branchy functions)
+                if p.tainted:
+                    # a failed goal was assumed on this path: its path condition says nothing about vacuity
+                    r = z3.unknown
+                else:
+                    r = z3.sat if rr == z3.sat else p.check(None, timeout=min(5000, timeout_ms))
                 if r == z3.sat:
                     seen_canary[0] = True
                 elif r == z3.unknown:
